@@ -282,7 +282,8 @@ func parseWidthModifier(s string) (int, int, error) {
 		if err != nil {
 			return 0, 0, fmt.Errorf("invalid maximum width %q: %s", parts[1], err)
 		}
-		if max < min {
+		// A maximum of "*" (returned as zero) means unbounded.
+		if max > 0 && max < min {
 			return 0, 0, fmt.Errorf("invalid width modifier %q: maximum width cannot be less than minimum width", s)
 		}
 	default:
